@@ -326,7 +326,12 @@ class ImageBatch(DataTensor):
             return data  # cannot be an ImageBatch or Image without a channel dimension
         grid_index = index[0] if is_multi_index else index
         if isinstance(grid_index, (np.ndarray, Sequence, Tensor)):
-            grid = tuple(self._grid[i] for i in grid_index)
+            grid_index = torch.as_tensor(grid_index)
+            if grid_index.ndim != 1:
+                return data  # index array does not (only) select along the batch dimension
+            if grid_index.dtype == torch.bool:
+                grid_index = grid_index.nonzero().flatten()
+            grid = tuple(self._grid[i] for i in grid_index.tolist())
         else:
             grid = self._grid[grid_index]
         if is_multi_index and len(index) > 2:
